@@ -35,9 +35,95 @@
 
 #include "layout.hh"
 
+#ifdef DWGREP_VERIF
+// Verification hooks (see /verif/DESIGN.md): a shadow map of live operator
+// states, and a step budget for loops in the op engine.  Compiled out unless
+// DWGREP_VERIF is defined.
+# include <map>
+# include <typeinfo>
+# include <type_traits>
+namespace dwgrep_verif
+{
+  struct live_state
+  {
+    size_t m_size;
+    std::type_info const *m_ti;
+    bool m_trivial;
+  };
+
+  __attribute__ ((noreturn)) void
+  scon_fail (char const *what, size_t off, size_t size, char const *type);
+
+  void step ();
+  void set_step_limit (unsigned long limit);
+  unsigned long get_step_count ();
+}
+# define DWGREP_VERIF_STEP() dwgrep_verif::step ()
+#else
+# define DWGREP_VERIF_STEP() ((void) 0)
+#endif
+
 class scon
 {
   std::vector <uint8_t> m_buf;
+#ifdef DWGREP_VERIF
+  std::map <size_t, dwgrep_verif::live_state> m_live;
+
+  template <class State>
+  void
+  verif_con (layout::loc loc)
+  {
+    size_t off = loc.m_loc;
+    size_t sz = sizeof (State);
+    char const *tn = typeid (State).name ();
+    if (off + sz > m_buf.size () || off + sz < off)
+      dwgrep_verif::scon_fail ("con outside of state buffer", off, sz, tn);
+    if (off % alignof (State) != 0)
+      dwgrep_verif::scon_fail ("con of misaligned state", off, sz, tn);
+    auto it = m_live.lower_bound (off);
+    if (it != m_live.end () && it->first < off + sz)
+      dwgrep_verif::scon_fail
+	(it->first == off ? "con over a live state"
+	 : "con overlaps a following live state", off, sz, tn);
+    if (it != m_live.begin ())
+      {
+	auto jt = std::prev (it);
+	if (jt->first + jt->second.m_size > off)
+	  dwgrep_verif::scon_fail ("con overlaps a preceding live state",
+				   off, sz, tn);
+      }
+    m_live.emplace (off, dwgrep_verif::live_state
+		    {sz, &typeid (State),
+		     std::is_trivially_destructible <State>::value});
+  }
+
+  template <class State>
+  void
+  verif_live (layout::loc loc, char const *what)
+  {
+    auto it = m_live.find (loc.m_loc);
+    if (it == m_live.end ())
+      dwgrep_verif::scon_fail (what, loc.m_loc, sizeof (State),
+			       typeid (State).name ());
+    if (*it->second.m_ti != typeid (State))
+      dwgrep_verif::scon_fail ("state accessed as a different type",
+			       loc.m_loc, sizeof (State),
+			       typeid (State).name ());
+  }
+
+public:
+  ~scon ()
+  {
+    for (auto const &e: m_live)
+      if (! e.second.m_trivial)
+	dwgrep_verif::scon_fail ("state still live when scon destroyed",
+				 e.first, e.second.m_size,
+				 e.second.m_ti->name ());
+  }
+  scon (scon const &) = delete;
+
+private:
+#endif
 
   void *
   mem (layout::loc loc)
@@ -52,6 +138,9 @@ public:
   State &
   get (layout::loc loc)
   {
+#ifdef DWGREP_VERIF
+    verif_live <State> (loc, "get of a state that is not live");
+#endif
     return *reinterpret_cast <State *> (this->mem (loc));
   }
 
@@ -59,6 +148,9 @@ public:
   void
   con (layout::loc loc, Args const&... args)
   {
+#ifdef DWGREP_VERIF
+    verif_con <State> (loc);
+#endif
     new (this->mem (loc)) State {args...};
   }
 
@@ -66,7 +158,13 @@ public:
   void
   des (layout::loc loc)
   {
+#ifdef DWGREP_VERIF
+    verif_live <State> (loc, "des of a state that is not live");
+#endif
     this->get <State> (loc).~State ();
+#ifdef DWGREP_VERIF
+    m_live.erase (loc.m_loc);
+#endif
   }
 
   template <class State, class... Args>
